@@ -545,10 +545,10 @@ def plan_C04(rep, seed, tier):
 
 def plan_C05(rep, seed, tier):
     binp = build_harness('default')
-    rv(rep, binp, 'dec-cutsets', seed, tier, extra=['--sinks', 'str,string'] + (['--thin', '2'] if tier == 'quick' else []), tag='dec-cutsets-str')
+    rv(rep, binp, 'dec-cutsets', seed, tier, extra=['--sinks', 'str,string'] + (['--thin', '2'] if tier == 'quick' else []), tag='dec-cutsets-str', budget=8e6)
     rv(rep, binp, 'dec-random', seed, tier, extra=['--sinks', 'str,string,utf8,utf16'], tag='dec-random-allsinks')
-    rv(rep, binp, 'dec-whole', seed, tier, extra=['--sinks', 'str,string,utf8', '--thin', '6' if tier == 'quick' else '1'], tag='dec-whole-str')
-    rv(rep, binp, 'dec-deep', seed, tier, extra=['--sinks', 'str,string,utf8', '--thin', '4' if tier == 'quick' else '1'], tag='dec-deep-str')
+    rv(rep, binp, 'dec-whole', seed, tier, extra=['--sinks', 'str,string,utf8', '--thin', '6' if tier == 'quick' else '1'], tag='dec-whole-str', budget=8e6)
+    rv(rep, binp, 'dec-deep', seed, tier, extra=['--sinks', 'str,string,utf8', '--thin', '4' if tier == 'quick' else '1'], tag='dec-deep-str', budget=8e6)
     strcfg = [
         C('Big5', 'off', 'str', True, 2, [4, 5, 7, 24], [0x20, 0x80, 0x87, 0x62, 0xA4, 0xFF]),
         C('windows-1252', 'sniff', 'str', False, 2, [4, 6, 24], [0x41, 0x80, 0xEF, 0xBB, 0xBF, 0xFF]),
@@ -575,7 +575,7 @@ def plan_C05(rep, seed, tier):
     rv(rep, binp, 'mem', seed, tier, shards=32, extra=['--which', 'c05', '--thin', '3'] if tier == 'quick' else ['--which', 'c05'], tag='mem-str')
     simd = build_harness('simd')
     rv(rep, simd, 'mem', seed, tier, shards=32, extra=['--which', 'c05', '--thin', '4'] if tier == 'quick' else ['--which', 'c05'], tag='mem-str-simd', build='simd')
-    rv(rep, simd, 'dec-cutsets', seed, tier, extra=['--sinks', 'str,string', '--thin', '6' if tier == 'quick' else '1'], tag='dec-cutsets-str-simd', build='simd')
+    rv(rep, simd, 'dec-cutsets', seed, tier, extra=['--sinks', 'str,string', '--thin', '6' if tier == 'quick' else '1'], tag='dec-cutsets-str-simd', build='simd', budget=8e6)
     rep.cov['rule'] = ('decode_to_str* / decode_to_string* on all cut sets of short class-alphabet streams: destination pre-filled with valid text of 1..4-byte '
                        'characters, whole destination validated after every call (also after the panic of a reused finished decoder); written prefix validated on every call of every sink')
 
